@@ -366,8 +366,7 @@ func (x *Exec) callByContract(st *State, fr *Frame, callee *ssa.Function, c *Con
 					}
 				case strings.HasPrefix(kind, "ghost:"):
 					key := strings.TrimPrefix(kind, "ghost:")
-					n := st.fresh("g", SSeqI)
-					st.assume(app("g_isbytes", n))
+					n := x.freshBytes(st, "g")
 					st.ghost[key] = TV{SSeqI, n}
 				}
 			})
